@@ -138,6 +138,22 @@ def c_vpvm(chk):
         chk.vc(f"vpvmAndvpovm.post.vpovm.path{i}", p.pc, Eq(r1 * (eH + pL), eL + pH), func=fn)
         chk.canary(f"vpvmAndvpovm.post.vpovm.path{i}", p.pc, Eq(r1 * (eH + pL), eH + pL), func=fn)
     chk.reach("vpvmAndvpovm.generic", [Ne(eH, eL)] + sel(paths)[0].pc, func=fn)
+    from wgvc.crosscheck import Cross, poly_chain, to_native_poly, to_callable
+
+    def functions(rnd):
+        nat, symf = {}, {}
+        for nm in ("pHigh", "pLow", "eHigh", "eLow"):
+            xs, fam = poly_chain(rnd, [nm], nvars=1, deg=3)
+            nat[nm], symf[nm] = to_native_poly(xs, fam[nm]), to_callable(xs, fam[nm])
+        for ph in ("High", "Low"):
+            symf[f"w{ph}"] = (lambda t, _p=symf[f"p{ph}"], _e=symf[f"e{ph}"]: _p(t) + _e(t))
+        return nat, symf
+
+    def scenario(env):
+        th = {"__stub__": "object", "methods": {"pHighT": "pHigh", "pLowT": "pLow", "eHighT": "eHigh", "eLowT": "eLow"}}
+        return {"module": "WallGo.hydrodynamics", "method": "vpvmAndvpovm", "args": [env["Tp"], env["Tm"]],
+                "self": {"__stub__": "real", "module": "WallGo.hydrodynamics", "class": "Hydrodynamics", "attrs": {"thermodynamics": th}}}
+    chk.cross(Cross("Hydrodynamics.vpvmAndvpovm", paths, lambda rnd: {"Tp": rnd.uniform(0.5, 2), "Tm": rnd.uniform(0.5, 2)}, scenario, functions=functions))
     if len(sel(paths)) != len(paths):
         chk.undecided.append("vpvmAndvpovm: a path raises")
 
